@@ -143,8 +143,12 @@ func (fc *FnCtx) unboundAnchors() []string {
 		}
 	}
 	has := func(anchor string) bool {
+		text, nth := splitAnchor(anchor)
+		if nth > 0 {
+			return nth <= len(fc.anchorLines(text))
+		}
 		for _, l := range lines {
-			if strings.Contains(l, anchor) {
+			if strings.Contains(l, text) {
 				return true
 			}
 		}
